@@ -19,24 +19,24 @@ import (
 
 // Job is one harness exploration inside a property check.
 type Job struct {
-	Name     string           // label in reports (defaults to Func)
-	Pkg      string           // package pattern relative to the repository, e.g. ./metrics
-	Func     string           // harness function
-	Setup    string           // optional concrete set-up function run once (snapshot)
-	GoArch   string           // optional GOARCH for loading (portable bodies)
-	Params   map[string]int64 // harness parameters
-	Sched    bool
-	SchedKinds string // scheduling-point kinds (empty: all)
+	Name          string           // label in reports (defaults to Func)
+	Pkg           string           // package pattern relative to the repository, e.g. ./metrics
+	Func          string           // harness function
+	Setup         string           // optional concrete set-up function run once (snapshot)
+	GoArch        string           // optional GOARCH for loading (portable bodies)
+	Params        map[string]int64 // harness parameters
+	Sched         bool
+	SchedKinds    string // scheduling-point kinds (empty: all)
 	SchedSkipPkgs string
-	LoopCap  int
-	MaxPaths int
-	QTimeout int      // ms
-	Only     []string // assertion-id prefixes that belong to this property (others are judged by their own property's check)
-	Reach    []string // reachability witnesses that must be hit on some path
-	Race     bool     // native replay under the race detector (lock-discipline findings)
-	NoReplay bool     // native replay impossible (engine-only observation); reason in Note
-	Note     string
-	Bounds   string // human-readable bounds of this job
+	LoopCap       int
+	MaxPaths      int
+	QTimeout      int      // ms
+	Only          []string // assertion-id prefixes that belong to this property (others are judged by their own property's check)
+	Reach         []string // reachability witnesses that must be hit on some path
+	Race          bool     // native replay under the race detector (lock-discipline findings)
+	NoReplay      bool     // native replay impossible (engine-only observation); reason in Note
+	Note          string
+	Bounds        string // human-readable bounds of this job
 }
 
 type Check struct {
@@ -158,16 +158,16 @@ func (k knownFinding) matches(prop, harness string, f interp.Failure) bool {
 }
 
 type jobReport struct {
-	Job      string            `json:"job"`
-	Harness  string            `json:"harness"`
-	Bounds   string            `json:"bounds,omitempty"`
-	Params   map[string]int64  `json:"params,omitempty"`
-	Result   *interp.RunResult `json:"result"`
-	Replayed int               `json:"replayed"`
-	OutOfScope int             `json:"out_of_scope_failures"`
-	Agreed   int               `json:"agreed"`
-	Note     string            `json:"note,omitempty"`
-	scope    []string
+	Job        string            `json:"job"`
+	Harness    string            `json:"harness"`
+	Bounds     string            `json:"bounds,omitempty"`
+	Params     map[string]int64  `json:"params,omitempty"`
+	Result     *interp.RunResult `json:"result"`
+	Replayed   int               `json:"replayed"`
+	OutOfScope int               `json:"out_of_scope_failures"`
+	Agreed     int               `json:"agreed"`
+	Note       string            `json:"note,omitempty"`
+	scope      []string
 }
 
 func cmdCheck(args []string) int {
@@ -487,14 +487,14 @@ func writeReplayFile(path, id string, j Job, f interp.Failure) {
 // ---------------------------------------------------------------- native replay
 
 type replayer struct {
-	job     Job
-	pkgName string
-	dir     string
-	bin     string
-	built   bool
-	stress  int
+	job      Job
+	pkgName  string
+	dir      string
+	bin      string
+	built    bool
+	stress   int
 	buildErr string
-	work    string
+	work     string
 }
 
 func newReplayer(j Job, pkgName, dir string) *replayer {
@@ -817,7 +817,7 @@ func writeEvidence(id, tier string, seed int, ck Check, reports []jobReport, wal
 	}
 	cov := map[string]interface{}{
 		"states": states, "transitions": transitions, "traces_validated_against_impl": validated, "samples": samples,
-		"explanation": "states = symbolic paths completed; transitions = solver/environment-decided decisions on them; every assertion on every path is decided by an SMT query over all values of the symbolic inputs inside the stated bounds",
+		"explanation":       "states = symbolic paths completed; transitions = solver/environment-decided decisions on them; every assertion on every path is decided by an SMT query over all values of the symbolic inputs inside the stated bounds",
 		"functions_encoded": fl, "jobs": jobs, "queries": queries, "queries_unsat": qunsat, "queries_sat": qsat, "queries_unknown": qunk,
 		"solver_seconds": round2(solverS), "assertion_instances_discharged": proved, "inconclusive": inconclusive, "solver": "z3 5.1.0 (z3-new -in), incremental, one process per worker",
 		"exhaustive": len(inconclusive) == 0,
